@@ -354,7 +354,8 @@ class Padding(WidgetDecoration[WrappedWidget], typing.Generic[WrappedWidget]):
                 (width, _ignore) = self._original_widget.pack((maxwidth,), focus=focus)
             else:
                 (width, _ignore) = self._original_widget.pack((), focus=focus)
-                maxcol = width + self.left + self.right
+                # the total pack() reports: the widget is drawn as wide as it is, the rest is padding
+                maxcol = max(width, self.min_width or 1) + self.left + self.right
 
             return calculate_left_right_padding(
                 maxcol,
@@ -372,10 +373,18 @@ class Padding(WidgetDecoration[WrappedWidget], typing.Generic[WrappedWidget]):
         elif self._width_type == WHSettings.GIVEN:
             maxcol = self._width_amount + self.left + self.right
         else:
-            maxcol = (
-                max(int(self._original_widget.pack((), focus=focus)[0] * 100 / self._width_amount + 0.5), self.min_width or 1)
-                + self.left
-                + self.right
+            (width, _ignore) = self._original_widget.pack((), focus=focus)
+            maxcol = max(int(width * 100 / self._width_amount + 0.5), self.min_width or 1) + self.left + self.right
+            # the total pack() reports; a fixed rendering draws the widget as wide as it is, the rest is padding
+            return calculate_left_right_padding(
+                maxcol,
+                self._align_type,
+                self._align_amount,
+                WHSettings.GIVEN,
+                width,
+                self.min_width,
+                self.left,
+                self.right,
             )
 
         return calculate_left_right_padding(
